@@ -33,11 +33,29 @@
                                     `a[ n ]` is `a[n]`, `a[ ]` is the null-terminated `a[]`), an empty dimension is accepted in
                                     the last place only.
 
-  Not proved: a printer / parser round trip `parseDecls (renderDecls ds) = ds` for whole declaration lists (the member loop
+  * `c13_decls_append`            — the declaration list is compositional at a boundary between top-level definitions: the
+                                    declarations of `t1 ++ t2` are those of `t1` followed by those of `t2` (and the error is that
+                                    of `t2`), when `t1` ends a top-level declaration (`endsTop`), parses without error and is at a
+                                    `boundary` with respect to the first token of `t2`.  Token level: the scanner has no state
+                                    between tokens except the look-behind for `}` (a name list right behind `}` is NOT a boundary;
+                                    `adm_append`), and a handler that leaves a non-empty rest never looked at the end of the token
+                                    list (`frame_all`, `declH_frame`).  The only look-aheads past the closing `;` are: a struct
+                                    definition takes one more `;`, and `typedef struct {...};` takes following declarators as
+                                    its names — `boundary` excludes these continuations, and unfinished definitions.
+    `c13_decls_concat / _permute` — for a family of complete definitions that are pairwise at a boundary, the text in ANY order
+                                    has the members' declarations in that order: reordering permutes the declaration list.
+  * `c13_commute_list`            — registration order: typedefs of pairwise distinct fresh names whose targets are all known
+                                    before (independent) can be registered in any order: all orders succeed and give tables that
+                                    bind and resolve every name alike (`c13_commute` lifted to lists).  A definition that uses a
+                                    name before it is defined is a ResolveError, in the model as in the library (example below).
+
+  Not proved: that an error in `t1` persists when text is appended (an error raised at the end of the tokens need not); the
+  effect of struct / enum declarations on the type table (only typedef registrations are modelled there);
+  a printer / parser round trip `parseDecls (renderDecls ds) = ds` for whole declaration lists (the member loop
   of `_struct`, the enum member splitting); these paths are covered by the correspondence with the real parser only.
 -/
 import Proofs.C13
-import Proofs.Lemmas.C13ParseJ
+import Proofs.Lemmas.C13ParseM
 
 namespace Cstruct.DefParser.C13
 open Cstruct Cstruct.Parser Cstruct.DefParser
@@ -133,6 +151,99 @@ theorem c13_comment_is_blank (a o body b w w' : List Char) (l l' : List (Lexeme 
     parseDecls (a ++ ('/' :: '*' :: body ++ '*' :: '/' :: b)) = parseDecls (a ++ b) := by
   rw [c13_comment_block_is_newlines a o body b h hb]
   exact c13_parse_layout_independent _ _ w' w l' l ht' ht hw' hw hl' hl (simLexemes_of_same l' l hs.symm)
+
+/-- a text without quotes and slashes: the comment scanner copies it -/
+theorem closed_plain : ∀ (l : List Char), (∀ c ∈ l, c ≠ '"' ∧ c ≠ '\'' ∧ c ≠ '/') → Closed l l
+  | [], _ => .nil
+  | c :: l, hc => .char c l l (hc c (by simp)).1 (hc c (by simp)).2.1 (hc c (by simp)).2.2
+      (closed_plain l (fun d hd => hc d (by simp [hd])))
+
+-- ------------------------------------------------------------------------------------------------ order of definitions
+theorem strip_closed (a o : List Char) (h : Closed a o) : Parser.strip a = o := by
+  have := Parser.C13.c13_strip_append a o [] h
+  simpa [Parser.strip, Parser.stripAux] using this
+
+/-- The declaration list is compositional at a boundary between top-level definitions.  `t1` (comment-stripped: blanks `w`, then
+    the lexemes `l1`) ends a top-level declaration (`endsTop`: behind `;`, a `#[...]` flag, or the line break of a `#define`),
+    parses to `ds1` without error, and is at a `boundary` with respect to the first token of `t2` (see there: the continuation
+    must not start with `;`, a declarator or a name list, and `t1` must not end inside an unfinished definition).  Then the
+    declarations of `t1 ++ t2` are those of `t1` followed by those of `t2`, and the error, if any, is that of `t2`. -/
+theorem c13_decls_append (t1 t2 w : List Char) (l1 l2 : List (Lexeme × List Char)) (ds1 : List Decl)
+    (hc : Closed t1 (w ++ render l1)) (hw : blank w = true) (h2 : Parser.strip t2 = render l2)
+    (ha1 : adm false l1 = true) (ha2 : adm false l2 = true) (he : endsTop l1 = true)
+    (hp : parseDecls t1 = (ds1, none)) (hb : boundary l1 ds1 (firstObs l2)) :
+    parseDecls (t1 ++ t2) = (ds1 ++ (parseDecls t2).1, (parseDecls t2).2) := by
+  have e12 : Parser.strip (t1 ++ t2) = w ++ render (l1 ++ l2) := by
+    rw [Parser.C13.c13_strip_append t1 _ t2 hc, h2, render_append, List.append_assoc]
+  have hp' : declsH (((toks l1).map Tok.obs).length + 1) ((toks l1).map Tok.obs) = (ds1, none) := by
+    rw [parseDecls_eq, strip_closed t1 _ hc, scan_lead w l1 hw ha1] at hp
+    simpa [parseToks] using hp
+  have h2' : parseDecls t2 = declsH (((toks l2).map Tok.obs).length + 1) ((toks l2).map Tok.obs) := by
+    rw [parseDecls_eq, h2]
+    have := scan_lead [] l2 rfl ha2
+    simp only [List.nil_append] at this
+    rw [this]; simp [parseToks]
+  rw [parseDecls_eq, e12, scan_lead w (l1 ++ l2) hw (adm_append l1 l2 false ha1 he ha2), h2']
+  have := decls_append_obs ((toks l1).map Tok.obs) ((toks l2).map Tok.obs) ds1 hp' hb
+  simpa [parseToks, toks_append] using this
+
+theorem firstObs_append (l1 l2 : List (Lexeme × List Char)) (h : l1 ≠ []) : firstObs (l1 ++ l2) = firstObs l1 := by
+  cases l1 with
+  | nil => exact absurd rfl h
+  | cons p l1 => obtain ⟨x, s⟩ := p; simp [firstObs, toks]
+
+theorem endsTop_ne_nil (l : List (Lexeme × List Char)) (h : endsTop l = true) : l ≠ [] := by
+  intro e; subst e; simp [endsTop] at h
+
+/-- Any sequence of complete top-level definitions taken from a family `D` whose members are pairwise at a boundary with respect
+    to each other: the declaration list of the concatenated text is the concatenation of the members' declaration lists, in the
+    order of the text, without error. -/
+theorem c13_decls_concat (D : List TopDef) (hok : ∀ d ∈ D, d.ok) (hb : ∀ d ∈ D, ∀ d' ∈ D, d.before d') :
+    ∀ (σ : List TopDef), (∀ d ∈ σ, d ∈ D) →
+      parseDecls (σ.flatMap (·.text)) = (σ.flatMap (·.decls), none) ∧
+      Parser.strip (σ.flatMap (·.text)) = render (σ.flatMap (·.lex)) ∧ adm false (σ.flatMap (·.lex)) = true
+  | [], _ => ⟨by decide +kernel, by decide +kernel, rfl⟩
+  | d :: σ, hσ => by
+    obtain ⟨ihp, ihs, iha⟩ := c13_decls_concat D hok hb σ (fun x hx => hσ x (by simp [hx]))
+    obtain ⟨hc, had, het, hpd⟩ := hok d (hσ d (by simp))
+    have hbd : boundary d.lex d.decls (firstObs (σ.flatMap (·.lex))) := by
+      cases σ with
+      | nil => simp [firstObs, toks, boundary]
+      | cons d' σ' =>
+        have hne := endsTop_ne_nil d'.lex (hok d' (hσ d' (by simp))).2.2.1
+        simp only [List.flatMap_cons]
+        rw [firstObs_append _ _ hne]
+        exact hb d (hσ d (by simp)) d' (hσ d' (by simp))
+    have := c13_decls_append d.text (σ.flatMap (·.text)) [] d.lex (σ.flatMap (·.lex)) d.decls (by simpa using hc) rfl ihs had iha het hpd hbd
+    refine ⟨?_, ?_, ?_⟩
+    · simp only [List.flatMap_cons, this, ihp]
+    · simp only [List.flatMap_cons]
+      rw [Parser.C13.c13_strip_append d.text _ _ hc, ihs, render_append]
+    · simp only [List.flatMap_cons]
+      exact adm_append d.lex _ false had het iha
+
+/-- Reordering independent top-level definitions permutes the declaration list: for every permutation `σ` of the family, the
+    declarations of the permuted text are the members' declarations in the permuted order — a permutation of the declarations of
+    the original text. -/
+theorem c13_decls_permute (D σ : List TopDef) (hok : ∀ d ∈ D, d.ok) (hb : ∀ d ∈ D, ∀ d' ∈ D, d.before d') (hp : σ.Perm D) :
+    parseDecls (σ.flatMap (·.text)) = (σ.flatMap (·.decls), none) ∧
+    (parseDecls (σ.flatMap (·.text))).1.Perm (parseDecls (D.flatMap (·.text))).1 := by
+  have h1 := (c13_decls_concat D hok hb σ (fun d hd => hp.mem_iff.mp hd)).1
+  have h2 := (c13_decls_concat D hok hb D (fun d hd => hd)).1
+  refine ⟨h1, ?_⟩
+  rw [h1, h2]
+  exact hp.flatMap_right _
+
+/-- Registration order.  A typedef resolves its target when it is read and binds the name to the type found (`regTypedef`), so a
+    definition that uses a name before the text defines it fails (see the counter-example below): order matters exactly for
+    DEPENDENT definitions, in the model as in the library.  For independent ones (`RegOK`: pairwise distinct names that are not
+    bound yet, every target already known to the table before the sequence) every order succeeds and all orders give tables that
+    bind every name alike and resolve every name alike. -/
+theorem c13_commute_list (tbl : List (String × Bind)) (regs σ : List (String × String)) (hok : RegOK tbl regs) (hp : regs.Perm σ) :
+    ∃ T T', regAll tbl regs = some T ∧ regAll tbl σ = some T' ∧ LookupEq T T' ∧ ∀ n, resolveB T 10 n = resolveB T' 10 n := by
+  obtain ⟨T, hT⟩ := regAll_total regs tbl hok
+  obtain ⟨T', hT', he⟩ := reg_perm regs σ hp tbl T hok hT
+  exact ⟨T, T', hT, hT', he, fun n => resolveB_congr T T' he 10 n⟩
 
 -- ------------------------------------------------------------------------------------------------ non-vacuity
 namespace Example
@@ -240,6 +351,62 @@ example : parseDeclarator (S "a[ ]") = .ok ⟨0, S "a", [[]], none⟩ ∧ parseD
 example : (parseDecls (S "enum E { A = 1, B, C = 7 };")).1.map encDecl = ["(enum \"E\" \"uint32\" [(\"A\" \"1\")(\"B\")(\"C\" \"7\")])"] ∧
           (parseDecls (S "enum E { A = 1, B, C\n = 7 };")).1.map encDecl = ["(enum \"E\" \"uint32\" [(\"A\" \"1\")(\"B\")(\"C\")])"] := by
   decide +kernel
+-- ---- order of definitions: four independent definitions, in two orders
+def mkDef (text : String) (lex : List (Lexeme × List Char)) : TopDef := ⟨S text, lex, (parseDecls (S text)).1⟩
+def dA := mkDef "typedef unsigned int U;\n" [(.typedef, S " "), (id' "unsigned", S " "), (id' "int", S " "), (nm "U", []), (.semi, S "\n")]
+def dB := mkDef "struct S { uint8 x; } s1, s2;\n" [(.struct false, S " "), (id' "S", S " "), (.lbrace, S " "), (id' "uint8", S " "), (nm "x", []),
+  (.semi, S " "), (.rbrace, []), (.defs (S " ") (S "s1") [([], S " ", S "s2")], []), (.semi, S "\n")]
+def dC := mkDef "#define N 4\n" [(.define (S " ") (S "N") (S " ") (S "4"), S "\n")]
+def dD := mkDef "enum E { X, Y = 3 };\n" [(.enum false (S " ") (S "E") (S " ") none (S " X, Y = 3 "), []), (.semi, S "\n")]
+def family : List TopDef := [dA, dB, dC, dD]
+
+theorem family_ok : ∀ d ∈ family, d.ok := by
+  have plain : ∀ d ∈ family, render d.lex = d.text ∧ (∀ c ∈ d.text, c ≠ '"' ∧ c ≠ '\'' ∧ c ≠ '/') ∧ adm false d.lex = true ∧
+      endsTop d.lex = true ∧ parseDecls d.text = (d.decls, none) := by decide +kernel
+  intro d hd
+  obtain ⟨h1, h2, h3, h4, h5⟩ := plain d hd
+  exact ⟨h1 ▸ closed_plain d.text h2, h3, h4, h5⟩
+
+theorem family_before : ∀ d ∈ family, ∀ d' ∈ family, d.before d' := by decide +kernel
+
+-- the text in the order D, C, B, A has the declarations of D, C, B, A, in this order: a permutation of those of A, B, C, D
+example : parseDecls (S "enum E { X, Y = 3 };\n#define N 4\nstruct S { uint8 x; } s1, s2;\ntypedef unsigned int U;\n")
+    = (dD.decls ++ dC.decls ++ dB.decls ++ dA.decls, none) ∧
+    (parseDecls (S "enum E { X, Y = 3 };\n#define N 4\nstruct S { uint8 x; } s1, s2;\ntypedef unsigned int U;\n")).1.Perm
+      (parseDecls (S "typedef unsigned int U;\nstruct S { uint8 x; } s1, s2;\n#define N 4\nenum E { X, Y = 3 };\n")).1 := by
+  have := c13_decls_permute family family.reverse family_ok family_before (List.reverse_perm family)
+  simpa [family, dA, dB, dC, dD, mkDef, S] using this
+example : (parseDecls (S "enum E { X, Y = 3 };\n#define N 4\nstruct S { uint8 x; } s1, s2;\ntypedef unsigned int U;\n")).1.map encDecl =
+    ["(enum \"E\" \"uint32\" [(\"X\")(\"Y\" \"3\")])", "(const \"N\" \"4\")",
+     "(aggr (struct \"S\" {(field (name \"uint8\") (d 0 \"x\" [] -))} [\"s1\"\"s2\"]))", "(typedef (name \"unsigned int\") [(d 0 \"U\" [] -)])"] := by
+  decide +kernel
+-- what is NOT a boundary (the texts end a top-level declaration, but the continuation would still be taken by the last handler):
+-- a `;` behind a struct definition, a declarator behind `typedef struct {...};`
+example : ¬ boundary dB.lex dB.decls (some .eol) := by decide +kernel
+def dT := mkDef "typedef struct { uint8 a; };\n" [(.typedef, S " "), (.struct false, S " "), (.lbrace, S " "), (id' "uint8", S " "), (nm "a", []),
+  (.semi, S " "), (.rbrace, []), (.semi, S "\n")]
+example : (parseDecls dT.text).2 = none ∧ endsTop dT.lex = true ∧ ¬ boundary dT.lex dT.decls (firstObs [(nm "x", []), (.semi, [])]) ∧
+    (parseDecls (dT.text ++ S "x;")).1.map encDecl = ["(typedef (inline (struct - {(field (name \"uint8\") (d 0 \"a\" [] -))} [])) [(d 0 \"x\" [] -)])"] := by
+  decide +kernel
+-- an unfinished struct is accepted by the parser but does not end at a boundary: the next definition would become a member
+def dU := mkDef "struct S { uint8 a;\n" [(.struct false, S " "), (id' "S", S " "), (.lbrace, S " "), (id' "uint8", S " "), (nm "a", []), (.semi, S "\n")]
+example : (parseDecls dU.text).2 = none ∧ ¬ boundary dU.lex dU.decls (firstObs dA.lex) := by decide +kernel
+
+-- ---- registration order
+def base : List (String × Bind) := [("uint8", .type 1), ("uint16", .type 2)]
+example : ∃ T T', regAll base [("A", "uint8"), ("B", "uint16"), ("C", "uint8")] = some T ∧
+    regAll base [("C", "uint8"), ("A", "uint8"), ("B", "uint16")] = some T' ∧ LookupEq T T' ∧ ∀ n, resolveB T 10 n = resolveB T' 10 n :=
+  c13_commute_list base _ _
+    ⟨by decide, by decide, by
+      intro p hp
+      simp only [List.mem_cons, List.mem_nil_iff, or_false] at hp
+      rcases hp with rfl | rfl | rfl
+      · exact ⟨1, by decide⟩
+      · exact ⟨2, by decide⟩
+      · exact ⟨1, by decide⟩⟩
+    (by decide)
+-- dependent definitions are order-sensitive: `typedef A B;` in front of `typedef uint8 A;` is a ResolveError
+example : (regAll base [("A", "uint8"), ("B", "A")]).isSome = true ∧ regAll base [("B", "A"), ("A", "uint8")] = none := by decide
 end Example
 
 end Cstruct.DefParser.C13
@@ -258,3 +425,7 @@ end Cstruct.DefParser.C13
 #print axioms Cstruct.DefParser.C13.c13_star_spacing
 #print axioms Cstruct.DefParser.C13.c13_enum_type_words
 #print axioms Cstruct.DefParser.C13.c13_dimension_blanks
+#print axioms Cstruct.DefParser.C13.c13_decls_append
+#print axioms Cstruct.DefParser.C13.c13_decls_concat
+#print axioms Cstruct.DefParser.C13.c13_decls_permute
+#print axioms Cstruct.DefParser.C13.c13_commute_list
